@@ -97,7 +97,11 @@ def observe(b, want_rows=True):
         reg('t0', 0, quiet(ocp.value, ocp.t0), 1)
         ts, dtc = quiet(ocp.sample, ocp.DT_control, grid='control')
         reg('tn', 0, ts, N + 1)        # node times (decision variables when t0 is localized)
-        reg('Tl', 0, dtc, N)           # interval lengths (decision variables when T is localized)
+        Tl = getattr(m, 'T_local', None)
+        if Tl is not None and all(isinstance(e, ca.MX) for e in Tl):
+            reg('Tl', 0, ca.hcat(Tl), N)   # the grid's own interval-length variables (localize_T, FreeGrid)
+        else:
+            reg('Tl', 0, dtc, N)
     o.ing = ing
     o.owner = {}
     for key, loc in ing.items():
